@@ -6,6 +6,7 @@ package template
 
 import (
 	"fmt"
+	"html"
 	"regexp"
 	"strings"
 )
@@ -125,9 +126,11 @@ func sanitizersForAttributeValue(c context) ([]string, error) {
 		// to prevent the injection of any new path segments or URL components. Moreover, they must
 		// not contain any ".." dot-segments.
 		ret = append(ret, queryEscapeURLFuncName, validateTrustedResourceURLSubstitutionFuncName)
-	case strings.ContainsAny(urlAttrValPrefix, "#?"):
+	case strings.ContainsAny(html.UnescapeString(urlAttrValPrefix), "#?"):
 		// For URLs, we only escape in the query or fragment part to prevent the injection of new query
-		// parameters or fragments.
+		// parameters or fragments. The prefix is the raw attribute value: the browser decodes its
+		// character references before parsing the URL ("/foo&quest;x=" is "/foo?x="), and the '#' of a
+		// numeric reference ("&#65;") is not a fragment delimiter.
 		ret = append(ret, queryEscapeURLFuncName)
 	default:
 		ret = append(ret, normalizeURLFuncName)
